@@ -20,7 +20,7 @@ RULE = (
     "every body is held open and released one at a time only when the simulator is quiescent, so at each decision the framework has admitted "
     "as many bodies as it ever will (release order seeded, or swept systematically for small cases); also random-delay and ready-shuffle modes. "
     "Non-trivial = the limit was saturated (in_flight == k at some body entry); distinct = digest of (program shape, k, release order)."
-    ' Also: async generator nodes and interrupt handlers (both are node functions), and a SEQUENCE variant: an earlier top-level call with another limit, made from the same task, fails / returns FAILED / pauses / completes before the measured call. Survivable failures: a node function or interrupt handler raises inside items of a continuing map (runner.map or map_over node, error_handling=continue); the rest of the call must still get its permits.'
+    ' Also: async generator nodes and interrupt handlers (both are node functions), and a SEQUENCE variant: an earlier top-level call with another limit, made from the same task, fails / returns FAILED / pauses / completes / is cancelled by a caller-side timeout (asyncio.wait_for on the virtual clock, bodies in flight) before the measured call. Survivable failures: a node function or interrupt handler raises inside items of a continuing map (runner.map or map_over node, error_handling=continue); the rest of the call must still get its permits.'
 )
 ASSUMPTIONS = ["bodies of function nodes are the unit of 'executing'; gate functions are synchronous and cannot be held open"]
 
@@ -129,7 +129,7 @@ def gen_case(rng: random.Random, tier: str) -> dict:
         "top_map_n": top_n,
         "tier": tier,
         # an earlier top-level call made from the SAME task with another limit, ending by failure / FAILED result / completion
-        "pre_run": rng.choice([None, None, {"k1": rng.choice([3, 4, 5]), "end": rng.choice(["raise", "continue", "ok", "pause"])}]),
+        "pre_run": rng.choice([None, None, {"k1": rng.choice([3, 4, 5]), "end": rng.choice(["raise", "continue", "ok", "pause", "cancel"]), "t": rng.choice([0.5, 1.5, 2.5, 3.5, 4.5])}]),
     }
 
 
@@ -262,9 +262,23 @@ def _sequence(doc, g, values, op, kw, res, rts, viol) -> None:
         fn = getattr(runner, op)
 
         async def seq():
+            import asyncio
+
             rt.limit["c0"] = k1
             try:
-                await runner.run(pre_graph, {}, max_concurrency=k1, error_handling="continue" if pre["end"] == "continue" else "raise")
+                if pre["end"] == "cancel":
+                    # the caller gives up on the first call after t simulated seconds (asyncio.wait_for): it is cancelled with
+                    # bodies in flight / between steps / not at all, depending on the seeded delays
+                    hold_sched = rt.schedule
+                    rt.schedule = {"mode": "delay", "seed": doc["hold_seeds"][0], "choices": [1, 2, 3]}
+                    try:
+                        await asyncio.wait_for(runner.run(pre_graph, {}, max_concurrency=k1), timeout=pre.get("t", 1.5))
+                    except asyncio.TimeoutError:
+                        rt.probes["pre_run_cancelled"] = rt.probes.get("pre_run_cancelled", 0) + 1
+                    finally:
+                        rt.schedule = hold_sched
+                else:
+                    await runner.run(pre_graph, {}, max_concurrency=k1, error_handling="continue" if pre["end"] == "continue" else "raise")
             except Exception:  # noqa: BLE001 - the first call may fail; the second is what is measured
                 pass
             rt.limit["c0"] = k
@@ -274,6 +288,8 @@ def _sequence(doc, g, values, op, kw, res, rts, viol) -> None:
     rts.append(rt)
     res["runs"] += 2
     res["stats"]["sequence_cases_" + pre["end"]] = 1
+    if rt.probes.get("pre_run_cancelled"):
+        res["stats"]["fault_call_cancelled_by_timeout"] = rt.probes["pre_run_cancelled"]
     for c, d in rt.violations:
         viol.append((f"sequence[{pre['end']}]:{c}", dict(d, first_call_limit=k1, second_call_limit=k)))
     if out["status"] in ("deadlock", "step_cap", "no_outcome"):
